@@ -493,7 +493,7 @@ func (st *State) symValue(t types.Type, h *Term) Value {
 		if isByte(u.Elem()) {
 			ln = mk("str.len", SInt, UF("val_String", SString, h))
 		} else {
-			st.assume(Le(Int(0), ln))
+			ln = mk("seq.len", SInt, UF("val_Seq", SSeqInt, h))
 		}
 		st.assume(Implies(Eq(h, Int(0)), Eq(ln, Int(0))))
 		return Slice{Back: h, Off: Int(0), Len: ln, Cap: ln, Elem: u.Elem()}
@@ -628,13 +628,11 @@ func (st *State) arrayCell(h *Term, elem types.Type) (Array, bool) {
 		return Array{}, false
 	}
 	var a Array
-	ln := UF("len", SInt, h)
 	if isByte(elem) {
 		s := UF("val_String", SString, h)
 		a = Array{Elem: elem, Str: s}
 	} else {
 		s := UF("val_Seq", SSeqInt, h)
-		st.assume(Eq(SeqLen(s), ln))
 		a = Array{Elem: elem, Seq: s}
 	}
 	st.heap[k] = Cell{V: a}
@@ -742,7 +740,8 @@ func (st *State) arrayGet(a Array, i *Term) (Value, error) {
 	}
 	// symbolic index into concrete elems: ite chain for scalars
 	if len(a.Elems) == 0 {
-		return nil, fmt.Errorf("index into empty array")
+		// out of range by construction; only reachable inside guarded contract expressions
+		return st.symValue(a.Elem, UF("emptyindex", SInt, i)), nil
 	}
 	if _, ok := a.Elems[0].(Scalar); ok {
 		r := a.Elems[len(a.Elems)-1].(Scalar).T
